@@ -41,7 +41,7 @@ def run(chk, model_ok=True):
     quick = chk.tier == "quick"
     env = e2e.env()
     peers = e2e.all_peers()
-    n_per = 120 if quick else 3000
+    n_per = 480 if quick else 24000
     n_e2e = 0
     hist = {}
     distinct = set()
@@ -130,7 +130,7 @@ def run(chk, model_ok=True):
     # correspondence of the conversion layer on the same replies
     st = streams.Streams(chk, model_ok)
     st.add("topy-e2e-replies", topy_lines)
-    st.add("topy", gens.lines_topy(rng, 3000 if quick else 60000))
+    st.add("topy", gens.lines_topy(rng, 12000 if quick else 480000))
     st.run()
     for ln, out in zip(st.lines, st.impl):
         if out == "PANIC":
